@@ -285,6 +285,10 @@ eval(struct expr *expr)
 				binary(expr->u.binary.r, expr->op, l->u.binary.r, r);
 				expr->op = TADD;
 				expr->u.binary.l = l->u.binary.l;
+			} else if (expr->op == TSUB && l->kind == EXPRUNARY && l->op == TBAND) {
+				/* P - C  ->  P + -C */
+				r->u.constant.u = -r->u.constant.u;
+				expr->op = TADD;
 			}
 			break;
 		default:
